@@ -1099,3 +1099,279 @@ Proof.
   intros Ha Hf Hn. destruct (nrt_reach_cinv p qk Ha Hf Hn fuel) as (B & _ & M).
   rewrite resume_secs_rsecs. apply sorted_rev. exact (mi_rsorted _ _ M).
 Qed.
+
+(* ======================================================================================================== *)
+(* ---- real time: a child starts at the logical time at which it was played, for every oracle --------------- *)
+(* On a TempoClock the queue holds beats: the child's seconds are beats2secs of its beat under the map of
+   the moment it is woken.  A tempo change of that clock between play() and the start (which in real time
+   can come from a routine of ANOTHER clock running at another logical time) moves it; without one the
+   child starts exactly at the caller's logical time. *)
+Definition notempo (i : nat) (log : list event) : Prop := forall o v, ~ In (EvTempo o i v true) log.
+Definition due_ok (tcs : list tclock) (log : list event) (c : clockid) (key Tp : Q) : Prop :=
+  match c with CTempo i => notempo i log -> b2s tcs c key == Tp | _ => key == Tp end.
+Definition start_ok (log : list event) (c : clockid) (s Tp : Q) : Prop :=
+  match c with CTempo i => notempo i log -> s == Tp | _ => s == Tp end.
+
+Record rchild (st : nstate) : Prop := mkRchild {
+  rc_wf : wf_tcs (n_tcs st);
+  rc_qlt : forall e, In e (n_q st) -> (e_rid e < length (n_routs st))%nat;
+  rc_ent : forall e r, In e (n_q st) -> nth_error (n_routs st) (e_rid e) = Some r -> r_k r = 0%nat ->
+             exists o Tp, In (EvPlay o (e_rid e) (e_clock e) Tp) (n_log st) /\
+                          due_ok (n_tcs st) (n_log st) (e_clock e) (e_time e) Tp /\ clock_ok (n_tcs st) (e_clock e) = true;
+  rc_plt : forall o ch c Tp, In (EvPlay o ch c Tp) (n_log st) -> (ch < length (n_routs st))%nat;
+  rc_puniq : forall o ch c Tp o' c' Tp', In (EvPlay o ch c Tp) (n_log st) -> In (EvPlay o' ch c' Tp') (n_log st) ->
+               c = c' /\ Tp = Tp';
+  rc_rlt : forall rid k c s b, In (EvResume rid k c s b) (n_log st) -> (rid < length (n_routs st))%nat;
+  rc_res0 : forall rid c s b o c' Tp, In (EvResume rid 0 c s b) (n_log st) -> In (EvPlay o rid c' Tp) (n_log st) ->
+              c = c' /\ start_ok (n_log st) c s Tp
+}.
+
+Lemma notempo_cons i ev log : notempo i (ev :: log) -> notempo i log.
+Proof. intros H o v Hin. apply (H o v). right; exact Hin. Qed.
+Lemma due_ok_cons tcs ev log c key Tp : due_ok tcs log c key Tp -> due_ok tcs (ev :: log) c key Tp.
+Proof. unfold due_ok. destruct c; auto. intros H N. apply H. eapply notempo_cons; eauto. Qed.
+Lemma start_ok_cons ev log c s Tp : start_ok log c s Tp -> start_ok (ev :: log) c s Tp.
+Proof. unfold start_ok. destruct c; auto. intros H N. apply H. eapply notempo_cons; eauto. Qed.
+
+Section RtChild.
+  Context (p : prog) (off : Z).
+
+  Definition rframe (st st' : nstate) : Prop := rchild st -> rchild st'.
+
+  (* logging anything but a play keeps it (queue, routines, tempo maps unchanged) *)
+  Lemma rchild_logonly st st' ev :
+    n_q st' = n_q st -> n_routs st' = n_routs st -> n_tcs st' = n_tcs st -> n_log st' = ev :: n_log st ->
+    (forall o ch c s, ev <> EvPlay o ch c s) ->
+    (forall rid k c s b, ev = EvResume rid k c s b ->
+       (rid < length (n_routs st))%nat /\
+       (k = 0%nat -> forall o c' Tp, In (EvPlay o rid c' Tp) (n_log st) -> c = c' /\ start_ok (n_log st) c s Tp)) ->
+    rframe st st'.
+  Proof.
+    intros Hq Hr Ht Hl Hpl Hres [R1 R0 R2 R3 R4 R5 R6].
+    constructor; rewrite ?Hq, ?Hr, ?Ht, ?Hl; auto.
+    - intros e r He Hn Hk. destruct (R2 e r He Hn Hk) as (o & Tp & A & A' & A''). exists o, Tp.
+      split; [right; exact A|]. split; auto. apply due_ok_cons. exact A'.
+    - intros o ch c Tp [H|H]; [exfalso; eapply Hpl; eauto|]. eapply R3; eauto.
+    - intros o ch c Tp o' c' Tp' [H|H]; [exfalso; eapply Hpl; eauto|]. intros [H'|H']; [exfalso; eapply Hpl; eauto|]. eapply R4; eauto.
+    - intros rid k c s b [H|H]; [apply (Hres rid k c s b H)|]. eapply R5; eauto.
+    - intros rid c s b o c' Tp [H|H].
+      + intros [H'|H']; [exfalso; eapply Hpl; eauto|].
+        destruct (Hres rid 0%nat c s b H) as [_ K]. destruct (K eq_refl o c' Tp H') as [K1 K2]. split; auto. apply start_ok_cons; auto.
+      + intros [H'|H']; [exfalso; eapply Hpl; eauto|].
+        destruct (R6 _ _ _ _ _ _ _ H H') as [K1 K2]. split; auto. apply start_ok_cons; auto.
+  Qed.
+
+  Lemma send_rframe st org T lat es : rframe st (fst (nrt_send (Some off) st org T lat es)).
+  Proof.
+    unfold nrt_send. destruct (stamp_bundle (send_mode (Some off) org) T lat es) as [sb|]; cbn [fst];
+      eapply rchild_logonly; try reflexivity; intros; discriminate.
+  Qed.
+  Lemma sendmsg_rframe st org T m : rframe st (fst (nrt_sendmsg (Some off) st org T m)).
+  Proof. unfold nrt_sendmsg. cbn [fst]. eapply rchild_logonly; try reflexivity; intros; discriminate. Qed.
+
+  Lemma play_rframe st org T r c : rframe st (fst (nrt_play (Some off) repaired p st org T r c)).
+  Proof.
+    unfold nrt_play. destruct (nth_error (p_bodies p) r) as [body|]; [|intros H; exact H].
+    destruct (clock_ok (n_tcs st) c && clock_ok_mode (Some off) c) eqn:Eok; [|intros H; exact H].
+    cbn [fst]. unfold nrt_sched_play. cbn [qk_app_abs repaired].
+    set (rid := length (n_routs st)).
+    set (beat := match c with CSystem => T + 0 | CApp => T + 0 | CTempo _ => s2b (n_tcs st) c T + 0 end).
+    set (st1 := add_log (set_routs st (n_routs st ++ [mkR r body c 0])) (EvPlay org rid c T)).
+    change (rframe st (push st1 beat c rid beat)).
+    apply andb_true_iff in Eok. destruct Eok as [Eok Emode].
+    intros [R1 R0 R2 R3 R4 R5 R6]. pose proof R0 as Hlt.
+    constructor; cbn [n_tcs n_routs n_log push st1 add_log set_routs]; auto.
+    - intros e He. rewrite push_q in He. apply kinsert_in in He. rewrite app_length. simpl.
+      destruct He as [->|He]; [cbn [e_rid]; unfold rid; lia|]. specialize (R0 _ He). lia.
+    - intros e r0 He Hn Hk. rewrite push_q in He. apply kinsert_in in He. destruct He as [->|He].
+      + exists org, T. cbn [e_rid e_clock e_time]. split; [left; reflexivity|]. split; auto.
+        unfold due_ok. destruct c as [| |i]; unfold beat.
+        * rewrite Qred_correct. ring.
+        * discriminate.
+        * intros _. rewrite (b2s_comp _ _ _ _ (Qred_correct _)).
+          assert (E : s2b (n_tcs st) (CTempo i) T + 0 == s2b (n_tcs st) (CTempo i) T) by ring.
+          rewrite (b2s_comp _ _ _ _ E). apply b2s_s2b. exact R1.
+      + specialize (Hlt _ He). rewrite nth_error_app1 in Hn by exact Hlt.
+        destruct (R2 e r0 He Hn Hk) as (o & Tp & A & A' & A''). exists o, Tp. split; [right; exact A|]. split; auto.
+        apply due_ok_cons. exact A'.
+    - intros o ch c0 Tp [H|H]; rewrite app_length; simpl.
+      + inversion H; subst. unfold rid. lia.
+      + specialize (R3 _ _ _ _ H). lia.
+    - intros o ch c0 Tp o' c' Tp' [H|H] [H'|H'].
+      + inversion H; inversion H'; subst. auto.
+      + inversion H; subst. specialize (R3 _ _ _ _ H'). unfold rid in R3. lia.
+      + inversion H'; subst. specialize (R3 _ _ _ _ H). unfold rid in R3. lia.
+      + eapply R4; eauto.
+    - intros rid0 k c0 s b [H|H]; [discriminate|]. rewrite app_length. specialize (R5 _ _ _ _ _ H). lia.
+    - intros rid0 c0 s b o c' Tp [H|H]; [discriminate|]. intros [H'|H'].
+      + inversion H'; subst. specialize (R5 _ _ _ _ _ H). unfold rid in R5. lia.
+      + destruct (R6 _ _ _ _ _ _ _ H H') as [K1 K2]. split; auto. apply start_ok_cons; auto.
+  Qed.
+
+  Lemma tempo_rframe st org T i v : rframe st (fst (nrt_set_tempo (Some off) repaired st org T i v)).
+  Proof.
+    unfold nrt_set_tempo. destruct (nth_error (n_tcs st) i) as [t|] eqn:Et.
+    2:{ cbn [fst]. eapply rchild_logonly; try reflexivity; intros; discriminate. }
+    destruct (tc_set_tempo t T v) as [t'|] eqn:Es.
+    2:{ cbn [fst]. eapply rchild_logonly; try reflexivity; intros; discriminate. }
+    cbn [fst]. intros [R1 R0 R2 R3 R4 R5 R6].
+    constructor; cbn [n_q n_tcs n_routs n_log add_log set_f11 set_tcs]; auto.
+    - apply wf_tcs_set; auto. eapply tc_set_tempo_wf; eauto.
+    - intros e r He Hn Hk. destruct (R2 e r He Hn Hk) as (o & Tp & A & A' & A''). exists o, Tp.
+      split; [right; exact A|]. split.
+      + unfold due_ok in *. destruct (e_clock e) as [| |j] eqn:Ec; auto.
+        intros N. destruct (Nat.eq_dec j i) as [->|Hne].
+        * exfalso. apply (N org v). left; reflexivity.
+        * rewrite b2s_set_other by congruence. apply A'. eapply notempo_cons; eauto.
+      + destruct (e_clock e) as [| |j]; auto. simpl in *. destruct (Nat.eq_dec i j) as [->|Hne].
+        * rewrite (set_nth_same _ _ _ _ Et). reflexivity.
+        * rewrite set_nth_other; auto.
+    - intros o ch c Tp [H|H]; [discriminate|]. eapply R3; eauto.
+    - intros o ch c Tp o' c' Tp' [H|H]; [discriminate|]. intros [H'|H']; [discriminate|]. eapply R4; eauto.
+    - intros rid k c s b [H|H]; [discriminate|]. eapply R5; eauto.
+    - intros rid c s b o c' Tp [H|H]; [discriminate|]. intros [H'|H']; [discriminate|].
+      destruct (R6 _ _ _ _ _ _ _ H H') as [K1 K2]. split; auto. apply start_ok_cons; auto.
+  Qed.
+End RtChild.
+
+Section RtChildExec.
+  Context (p : prog) (off : Z).
+
+  Lemma run_acts_rframe org T acts st cclk st' oc :
+    run_acts (Some off) repaired p st org T cclk acts = (st', oc) -> rframe st st'.
+  Proof.
+    apply run_acts_ind.
+    - intros s H; exact H.
+    - intros a b c F1 F2 H. apply F2, F1, H.
+    - intros; apply send_rframe.
+    - intros; apply sendmsg_rframe.
+    - intros; apply play_rframe.
+    - intros; apply tempo_rframe.
+  Qed.
+
+  Lemma rchild_subq st q' : (forall x, In x q' -> In x (n_q st)) -> rchild st -> rchild (set_q st q').
+  Proof.
+    intros Sub [R1 R0 R2 R3 R4 R5 R6]. constructor; cbn [n_q n_tcs n_routs n_log set_q]; auto.
+    intros e r He. apply R2. auto.
+  Qed.
+  Lemma rchild_mtime st m : rchild st -> rchild (set_mtime st m).
+  Proof. intros [R1 R0 R2 R3 R4 R5 R6]. constructor; auto. Qed.
+
+  Lemma finish_rchild st2 rid (r : rout) oc (c : clockid) (tm nb : Q -> Q) :
+    rchild st2 -> (rid < length (n_routs st2))%nat ->
+    rchild (match oc with
+            | OYield d rest =>
+                push (set_routs st2 (set_nth (n_routs st2) rid (mkR (r_def r) rest c (S (r_k r))))) (tm d) c rid (nb d)
+            | ODone => add_log (set_routs st2 (set_nth (n_routs st2) rid (mkR (r_def r) [] c (S (r_k r))))) (EvEnd rid (r_k r) false)
+            | ORaise => add_log (set_routs st2 (set_nth (n_routs st2) rid (mkR (r_def r) [] c (S (r_k r))))) (EvEnd rid (r_k r) true)
+            end).
+  Proof.
+    intros [R1 R0 R2 R3 R4 R5 R6] Hlt.
+    assert (Ent : forall rest' x r0, In x (n_q st2) ->
+              nth_error (set_nth (n_routs st2) rid (mkR (r_def r) rest' c (S (r_k r)))) (e_rid x) = Some r0 -> r_k r0 = 0%nat ->
+              exists o Tp, In (EvPlay o (e_rid x) (e_clock x) Tp) (n_log st2) /\
+                           due_ok (n_tcs st2) (n_log st2) (e_clock x) (e_time x) Tp /\ clock_ok (n_tcs st2) (e_clock x) = true).
+    { intros rest' x r0 Hx Hn Hk. destruct (Nat.eq_dec (e_rid x) rid) as [Eq|Hne].
+      - rewrite Eq in Hn. destruct (nth_error (n_routs st2) rid) as [r1|] eqn:E1.
+        + rewrite (set_nth_same _ _ _ _ E1) in Hn. inversion Hn; subst. discriminate.
+        + apply nth_error_None in E1. lia.
+      - rewrite set_nth_other in Hn by congruence. eapply R2; eauto. }
+    destruct oc as [d rest'| |].
+    - constructor; cbn [n_tcs n_routs n_log push set_routs]; auto.
+      + intros x Hx. rewrite push_q in Hx. apply kinsert_in in Hx. rewrite set_nth_length.
+        destruct Hx as [->|Hx]; auto.
+      + intros x r0 Hx Hn Hk. rewrite push_q in Hx. apply kinsert_in in Hx. destruct Hx as [->|Hx].
+        * cbn [e_rid] in Hn. destruct (nth_error (n_routs st2) rid) as [r1|] eqn:E1.
+          -- rewrite (set_nth_same _ _ _ _ E1) in Hn. inversion Hn; subst. discriminate.
+          -- apply nth_error_None in E1. lia.
+        * eapply Ent; eauto.
+      + intros o ch c0 Tp H. rewrite set_nth_length. eapply R3; eauto.
+      + intros rid0 k c0 s b H. rewrite set_nth_length. eapply R5; eauto.
+    - constructor; cbn [n_q n_tcs n_routs n_log add_log set_routs]; auto.
+      + intros x Hx. rewrite set_nth_length. auto.
+      + intros x r0 Hx Hn Hk. destruct (Ent [] x r0 Hx Hn Hk) as (o & Tp & A & A' & A''). exists o, Tp.
+        split; [right; exact A|]. split; auto. apply due_ok_cons; auto.
+      + intros o ch c0 Tp [H|H]; [discriminate|]. rewrite set_nth_length. eapply R3; eauto.
+      + intros o ch c0 Tp o' c' Tp' [H|H]; [discriminate|]. intros [H'|H']; [discriminate|]. eapply R4; eauto.
+      + intros rid0 k c0 s b [H|H]; [discriminate|]. rewrite set_nth_length. eapply R5; eauto.
+      + intros rid0 c0 s b o c' Tp [H|H]; [discriminate|]. intros [H'|H']; [discriminate|].
+        destruct (R6 _ _ _ _ _ _ _ H H') as [K1 K2]. split; auto. apply start_ok_cons; auto.
+    - constructor; cbn [n_q n_tcs n_routs n_log add_log set_routs]; auto.
+      + intros x Hx. rewrite set_nth_length. auto.
+      + intros x r0 Hx Hn Hk. destruct (Ent [] x r0 Hx Hn Hk) as (o & Tp & A & A' & A''). exists o, Tp.
+        split; [right; exact A|]. split; auto. apply due_ok_cons; auto.
+      + intros o ch c0 Tp [H|H]; [discriminate|]. rewrite set_nth_length. eapply R3; eauto.
+      + intros o ch c0 Tp o' c' Tp' [H|H]; [discriminate|]. intros [H'|H']; [discriminate|]. eapply R4; eauto.
+      + intros rid0 k c0 s b [H|H]; [discriminate|]. rewrite set_nth_length. eapply R5; eauto.
+      + intros rid0 c0 s b o c' Tp [H|H]; [discriminate|]. intros [H'|H']; [discriminate|].
+        destruct (R6 _ _ _ _ _ _ _ H H') as [K1 K2]. split; auto. apply start_ok_cons; auto.
+  Qed.
+
+  Lemma rt_wake_rchild st e rest : In e (n_q st) -> (forall x, In x rest -> In x (n_q st)) ->
+    rchild st -> rchild (rt_wake off p (set_q st rest) e).
+  Proof.
+    intros Hin Sub R. unfold rt_wake. cbn [n_routs set_mtime set_q n_tcs].
+    destruct (nth_error (n_routs st) (e_rid e)) as [r|] eqn:Er; [|apply rchild_subq; auto].
+    set (T := Qred (b2s (n_tcs st) (e_clock e) (e_time e))). set (beats := Qred (s2b (n_tcs st) (e_clock e) T)).
+    set (st1 := add_log (set_mtime (set_q st rest) T) (EvResume (e_rid e) (r_k r) (e_clock e) T beats)).
+    assert (Hlt : (e_rid e < length (n_routs st))%nat) by (apply nth_error_Some; rewrite Er; discriminate).
+    assert (R1 : rchild st1).
+    { apply (rchild_logonly (set_mtime (set_q st rest) T) st1 (EvResume (e_rid e) (r_k r) (e_clock e) T beats)); try reflexivity.
+      - intros; discriminate.
+      - intros rid k c s b H. injection H as <- <- <- <- <-. split; [exact Hlt|].
+        intros Hk o c' Tp Hp. cbn [n_log set_mtime set_q] in Hp.
+        destruct (rc_ent _ R e r Hin Er Hk) as (o0 & Tp0 & A & A' & _).
+        destruct (rc_puniq _ R _ _ _ _ _ _ _ A Hp) as [<- <-]. split; auto.
+        unfold start_ok, due_ok, T in *. cbn [n_log set_mtime set_q].
+        destruct (e_clock e) as [| |i]; rewrite Qred_correct; simpl; exact A'.
+      - apply rchild_mtime. apply rchild_subq; auto. }
+    destruct (run_acts (Some off) repaired p st1 (Some (e_rid e, r_k r)) T (e_clock e) (r_rest r)) as [st2 oc] eqn:E.
+    pose proof (run_acts_rframe _ _ _ _ _ _ _ E R1) as R2.
+    assert (Hlt2 : (e_rid e < length (n_routs st2))%nat).
+    { apply (rc_rlt _ R2 (e_rid e) (r_k r) (e_clock e) T beats).
+      destruct (run_acts_log_ext _ _ _ _ _ _ _ _ _ _ E) as (new & Hlog & _). rewrite Hlog. apply in_or_app. right. left. reflexivity. }
+    apply (finish_rchild st2 (e_rid e) r oc (e_clock e) (fun d => e_time e + d) (fun d => e_time e + d)); auto.
+  Qed.
+
+  Lemma rt_step_rchild s ch : rchild (rs s) -> rchild (rs (rt_step off p s ch)).
+  Proof.
+    intros G. destruct ch as [t|t|rid t]; unfold rt_step.
+    - destruct (rs_tempos s) as [|tempo rest]; [exact G|]. cbn [rs].
+      destruct G as [R1 R0 R2 R3 R4 R5 R6]. constructor; cbn [n_q n_tcs n_routs n_log set_mtime set_tcs]; auto.
+      + unfold wf_tcs. apply Forall_app. split; auto. constructor; [apply tc_new_wf|constructor].
+      + intros e r He Hn Hk. destruct (R2 e r He Hn Hk) as (o & Tp & A & A' & A''). exists o, Tp. split; auto.
+        destruct (e_clock e) as [| |i] eqn:Ec; auto. simpl in A''.
+        destruct (nth_error (n_tcs (rs s)) i) as [t0|] eqn:Ei; [|discriminate].
+        assert (Hi : (i < length (n_tcs (rs s)))%nat) by (apply nth_error_Some; rewrite Ei; discriminate).
+        split.
+        * unfold due_ok in *. intros N. simpl. rewrite nth_error_app1 by exact Hi. rewrite Ei. specialize (A' N). simpl in A'. rewrite Ei in A'. exact A'.
+        * simpl. rewrite nth_error_app1 by exact Hi. rewrite Ei. reflexivity.
+    - destruct (rs_tempos s); [|exact G]. destruct (rs_main s) as [|a rest]; [exact G|].
+      destruct (run_acts (Some off) repaired p (set_mtime (rs s) (advance (rs_now s) t)) None (advance (rs_now s) t) CSystem [a])
+        as [st' oc] eqn:E.
+      cbn [fst rs]. apply (run_acts_rframe _ _ _ _ _ _ _ E). apply rchild_mtime. exact G.
+    - destruct (find_rid rid (n_q (rs s))) as [e0|]; [|exact G].
+      destruct (pop_clock (e_clock e0) (n_q (rs s))) as [[e rest]|] eqn:Ep; [|exact G].
+      destruct (Nat.eqb (e_rid e) rid); [|exact G]. cbn [rs].
+      pose proof (pop_clock_perm _ _ _ _ Ep) as Hperm.
+      apply rt_wake_rchild; auto.
+      + eapply Permutation_in; [apply Permutation_sym; exact Hperm|]. left; reflexivity.
+      + intros x Hx. eapply Permutation_in; [apply Permutation_sym; exact Hperm|]. right; exact Hx.
+  Qed.
+
+  Lemma rt_run_rchild sched : rchild (rs (rt_run off p sched)).
+  Proof.
+    unfold rt_run. assert (G : rchild (rs (rt_init p))).
+    { constructor; simpl; try (intros; tauto). constructor. }
+    revert G. generalize (rt_init p). induction sched as [|ch l IH]; intros s G; simpl; auto.
+    apply IH. apply rt_step_rchild. exact G.
+  Qed.
+End RtChildExec.
+
+Lemma child_start_rt off p sched o ch c Tp c' s b :
+  let st := rs (rt_run off p sched) in
+  In (EvPlay o ch c Tp) (n_log st) -> In (EvResume ch 0 c' s b) (n_log st) ->
+  c' = c /\ start_ok (n_log st) c' s Tp.
+Proof.
+  intros st Hp Hr. apply (rc_res0 _ (rt_run_rchild p off sched) _ _ _ _ _ _ _ Hr Hp).
+Qed.
